@@ -103,6 +103,35 @@ def logger_discipline(run, F, E):
     return n_sites
 
 
+def reached_records(F, g, argvals, depth=0):
+    """[(argument values of a recordMethod call, call node, unconditional)] reached from function g when called with the constant
+    argument values `argvals` (None = not a constant), following calls to member functions of the same state wrapper"""
+    if g is None or g.body is None or depth > 4:
+        return []
+    cg = cfgmod.cfg_of(g)
+    pv = {p['id']: (argvals[i] if i < len(argvals) else None) for i, p in enumerate(g.params)}
+
+    def val(x):
+        c0 = ir.const_val(x)
+        if c0 is not None:
+            return c0
+        x = ir.strip(x)
+        if x['k'] == 'var' and x.get('id') in pv:
+            return pv[x['id']]
+        return None
+    out = []
+    for n in cg.events(('call',)):
+        uncond = cg.postdominates(n, cg.entry) and not cg.in_loop(n)
+        if n.e.get('m') == 'recordMethod':
+            out.append(([val(x) for x in n.e.get('args', [])], n, uncond))
+        else:
+            h = F.fn(n.e['fn']) if n.e.get('fn') is not None else None
+            if h is not None and h.tkey == 'ffsm2::detail::S_' and h.id != g.id:
+                for (vals, n2, u2) in reached_records(F, h, [val(x) for x in n.e.get('args', [])], depth + 1):
+                    out.append((vals, n2, uncond and u2))
+    return out
+
+
 def method_records(run, F, E, verbose):
     for fn in F.find('S_'):
         if fn.m not in anchors.WRAPPERS:
@@ -142,15 +171,11 @@ def method_records(run, F, E, verbose):
                 a = e.get('args', [])
                 conds['names this method (%s)' % enum_name] = len(a) == 4 and ir.const_val(a[3]) == want_enum
                 g = F.fn(e['fn']) if e.get('fn') is not None else None
-                recs = [x for x in ir.all_exprs(g) if x['k'] == 'call' and x.get('m') == 'recordMethod'] if g is not None else []
                 if defines:
-                    okr = len(recs) == 1
-                    if okr:
-                        ra = recs[0].get('args', [])
-                        cg = cfgmod.cfg_of(g)
-                        rn = cg.events(('call',), lambda n: n.e.get('m') == 'recordMethod')
-                        okr = len(ra) == 3 and ir.const_val(ra[1]) == sid and ir.strip(ra[2]).get('k') == 'var' and ir.strip(ra[2]).get('vk') == 'param' \
-                            and len(rn) == 1 and cg.postdominates(rn[0], cg.entry)
+                    # the records reached from the selected log() overload, looking through helper members of the state wrapper, with the
+                    # arguments propagated: exactly one, unconditional at every level, naming this state and the method passed in
+                    recs = reached_records(F, g, [ir.const_val(x) for x in a]) if g is not None else []
+                    okr = len(recs) == 1 and recs[0][2] and len(recs[0][0]) == 3 and recs[0][0][1] == sid and recs[0][0][2] == want_enum
                     conds['the state defines %s, so the selected log() overload records (state %s)' % (user_m, sid)] = okr
             bad = [k for k, v in conds.items() if not v]
             if bad:
